@@ -56,9 +56,7 @@ def items_text(items):
     out = []
     for it in items:
         n = it["name"]
-        if n == "PUSH [tag]":
-            out.append("PUSH [tag] %x" % int(it["value"]))       # the plain reader reads operands as hex
-        elif "value" in it and n not in ("JUMP", "JUMPI"):
+        if "value" in it and n not in ("JUMP", "JUMPI"):
             out.append("%s %s" % (n, it["value"]))
         else:
             out.append(n)
@@ -94,14 +92,26 @@ def run(tier):
             texts += corpus.sample(b, n, seed)
         texts += [items_text(b["items"]) for b in corpus.sample(corpus.real_blocks(), 3000, seed)]
         maxmut = 60000
-    bases = [gen.tokens(t) for t in dict.fromkeys(texts) if gen.tokens(t)]
+    def wellformed(toks):
+        for t in toks:
+            op = t.split()[0]
+            for pre in ("DUP", "SWAP"):
+                if op.startswith(pre) and op[len(pre):].isdigit() and not 1 <= int(op[len(pre):]) <= 16:
+                    return False
+        return True
+    bases = [gen.tokens(t) for t in dict.fromkeys(texts) if gen.tokens(t) and wellformed(gen.tokens(t))]
     muts, mr = mutants_of(bases)
     muts = corpus.sample(muts, maxmut, seed)
     cmds, meta = [], []
     for bi, b in enumerate(bases):
         cmds.append({"cmd": "compare", "a": " ".join(b), "b": " ".join(b)})
         meta.append(("refl", bi, None))
+    fixed = ("tag", "JUMPDEST", "JUMP", "JUMPI", "STOP", "RETURN", "REVERT", "INVALID", "SELFDESTRUCT")
     for (bi, pos, kind, par, repl) in muts:
+        if kind == "swapnext" and (bases[bi - 1][pos - 1].split()[0] in fixed or bases[bi - 1][pos].split()[0] in fixed):
+            continue        # moving a tag / jump / terminal does not give a well-formed block
+        if kind == "index" and not wellformed(apply(bases[bi - 1], pos, kind, par, repl)):
+            continue
         m = apply(bases[bi - 1], pos, kind, par, repl)
         cmds.append({"cmd": "compare", "a": " ".join(bases[bi - 1]), "b": " ".join(m)})
         meta.append(("mut", bi - 1, (pos, kind, par, repl)))
@@ -145,7 +155,7 @@ def run(tier):
             c = {"id": len(cases) + 1, "orig": r["a"], "opt": r["b"], "a": cmd["a"], "b": cmd["b"], "mut": mi, "opts": [oname]}
             index[key] = c
             cases.append(c)
-    verdicts, st = equiv.run_equiv(cases, 48 if tier == "quick" else 256, tag="c05")
+    verdicts, st = equiv.run_equiv(cases, 48 if tier == "quick" else 256, tag="c05", depthcheck=False)
     undec = 0
     for c in cases:
         cl = equiv.classify(verdicts.get(c["id"], []))
